@@ -20,6 +20,29 @@ def gasFnReads : GasFn → Nat
   | .gasStaticCall => 1 | .gasSuicide => 1
   | _ => 0
 
+/-- number of stack items the body of an execute function accesses (pop / peek / dup / swap depth), transcribed from
+    instructions.go; closures made by makeDup / makeSwap / makeLog take their parameter from the opcode they are installed at -/
+def execReads (f : OpF) : Nat :=
+  match f.execFn with
+  | .makePush => 0
+  | .makeDup => f.op - 0x80 + 1
+  | .makeSwap => f.op - 0x90 + 2
+  | .makeLog => f.op - 0xa0 + 2
+  | .opAdd => 2 | .opSub => 2 | .opMul => 2 | .opDiv => 2 | .opSdiv => 2 | .opMod => 2 | .opSmod => 2 | .opExp => 2
+  | .opSignExtend => 2 | .opLt => 2 | .opGt => 2 | .opSlt => 2 | .opSgt => 2 | .opEq => 2 | .opAnd => 2 | .opOr => 2 | .opXor => 2
+  | .opByte => 2 | .opSHL => 2 | .opSHR => 2 | .opSAR => 2
+  | .opNot => 1 | .opIszero => 1
+  | .opAddmod => 3 | .opMulmod => 3
+  | .opSha3 => 2
+  | .opAddress => 0 | .opOrigin => 0 | .opCaller => 0 | .opCallValue => 0 | .opCallDataSize => 0 | .opCodeSize => 0 | .opGasprice => 0
+  | .opCoinbase => 0 | .opTimestamp => 0 | .opNumber => 0 | .opDifficulty => 0 | .opGasLimit => 0 | .opPc => 0 | .opMsize => 0
+  | .opGas => 0 | .opReturnDataSize => 0 | .opJumpdest => 0 | .opStop => 0
+  | .opBalance => 1 | .opCallDataLoad => 1 | .opExtCodeSize => 1 | .opBlockhash => 1 | .opPop => 1 | .opMload => 1 | .opSload => 1
+  | .opJump => 1 | .opSuicide => 1
+  | .opCallDataCopy => 3 | .opCodeCopy => 3 | .opReturnDataCopy => 3 | .opExtCodeCopy => 4
+  | .opMstore => 2 | .opMstore8 => 2 | .opSstore => 2 | .opJumpi => 2 | .opReturn => 2 | .opRevert => 2
+  | .opCreate => 3 | .opCall => 7 | .opCallCode => 7 | .opDelegateCall => 6 | .opStaticCall => 6
+
 /-- per-opcode well-formedness of a table entry -/
 def opOK (f : OpF) : Bool :=
   -- the execute function of a CALL-family opcode is paired with its gas function (run dispatches on the former, the
@@ -41,7 +64,9 @@ def opOK (f : OpF) : Bool :=
   -- stay below the height validateStack guarantees
   (memFnReads f.memFn ≤ f.pops && gasFnReads f.gasFn ≤ f.pops) &&
   -- hand classification "modifies state directly" ⊆ writes flag
-  (!(execWrites f.execFn || f.execFn == .opCreate || gasTouchesState f.gasFn) || f.writes)
+  (!(execWrites f.execFn || f.execFn == .opCreate || gasTouchesState f.gasFn) || f.writes) &&
+  -- the execute body pops / peeks no deeper than validateStack guarantees
+  decide (execReads f ≤ f.pops)
 
 theorem table_ok : ∀ ep : Epoch, (table ep).all opOK = true := by
   intro ep
